@@ -10,7 +10,8 @@ LIBINC = -I$(REPO)/Lib/structs/public -I$(REPO)/Lib/mem/public -I$(REPO)/Lib/thp
 COMMON := $(wildcard harness/common/*.hpp)
 
 STRUCT_BINS := $(B)/qsl $(B)/map $(B)/bst $(B)/mem
-ALL := $(STRUCT_BINS)
+ACTOR_HDR := $(wildcard harness/actor/*.hpp harness/actor/*.inc)
+ALL := $(STRUCT_BINS) $(B)/actor
 
 .PHONY: all bins lib-asan lib-tsan lib-fuzz clean FORCE
 all:
@@ -35,6 +36,12 @@ $(B)/obj/%.o: harness/%.cpp $(COMMON)
 
 $(STRUCT_BINS): $(B)/%: $(B)/obj/structs/%.o $(B)/lib-asan/libmodule.a
 	$(CXX) $(ASAN) $< $(B)/lib-asan/libmodule.a -lrapidcheck -lpthread -ldl -o $@
+
+$(B)/obj/actor/%.o: harness/actor/%.cpp $(COMMON) $(ACTOR_HDR)
+	@mkdir -p $(dir $@)
+	$(CXX) $(CXXFLAGS) $(ASAN) $(LIBINC) -I$(B)/lib-asan/gen -c $< -o $@
+$(B)/actor: $(B)/obj/actor/gen.o $(B)/obj/actor/exec.o $(B)/lib-asan/libmodule.a
+	$(CXX) $(ASAN) $(B)/obj/actor/gen.o $(B)/obj/actor/exec.o $(B)/lib-asan/libmodule.a -lrapidcheck -lpthread -ldl -o $@
 
 clean:
 	rm -rf $(B)
